@@ -395,7 +395,9 @@ def lua_check(res, known, args):
     for f in known["findings"]:
         if "lua_verdict" in f and any(re.search(f["lua_verdict"], v[1]) for v in verd):
             res.known.append("finding=%s %s" % (f["id"], f["what"]))
+    pf = re.search(r"programs inside the proved fragments: (.*)", out)
     res.coverage.update({"programs": cases, "evaluations": cases, "distinct_nontrivial": cases, "mismatches": mism,
+                         "programs_inside_proved_fragments": pf.group(1) if pf else None,
                          "verdicts": {k: v for k, v in verd}, "fragment_violations": bad,
                          "extractor_selftest": selft.group(0) if selft else None,
                          "rule": "cell programs (%s configurations) + one program per dissector shape; emitted Lua extracted to the Lua IR and compared with gen_lua (tie); sem_lua of the observed IR over the canonical encoding of boundary messages compared with ranges derived from the wire specification; programs inside lua_frag must agree on every message" % ncfg,
